@@ -63,6 +63,17 @@ def hostName (host : Str) : Str :=
 def getCookieDomain (domains : List Str) (host : Str) : Option Str :=
   domains.find? (fun d => hasSuffix d (hostName host))
 
+/-- insertion that keeps a list sorted by length, longest first -/
+def insertByLen (d : Str) : List Str → List Str
+  | [] => [d]
+  | x :: xs => if x.length ≤ d.length then d :: x :: xs else x :: insertByLen d xs
+
+/-- the configured domains as validation leaves them (any sort by descending length will do: see
+    `domain_unique` in Props/C18) -/
+def sortDomains : List Str → List Str
+  | [] => []
+  | d :: ds => insertByLen d (sortDomains ds)
+
 /-- the domain `MakeCookieFromOptions` uses: first (= longest) matching, else the last (= shortest)
     configured one, else none -/
 def domainRule (domains : List Str) (host : Str) : Str :=
